@@ -15,6 +15,7 @@ pub mod c15;
 pub mod c16;
 pub mod c17;
 pub mod c18;
+pub mod c20;
 
 pub struct Prop {
     pub id: &'static str,
@@ -38,5 +39,6 @@ pub fn all() -> Vec<Prop> {
         Prop { id: "C16", run: c16::run, replay: c16::replay },
         Prop { id: "C17", run: c17::run, replay: c17::replay },
         Prop { id: "C18", run: c18::run, replay: c18::replay },
+        Prop { id: "C20", run: c20::run, replay: c20::replay },
     ]
 }
